@@ -971,7 +971,9 @@ def stepAcc (a : Acc) : Op → Acc
   | .removeVirtual s r vkey => if connected a.h s then removeVirtual a s r vkey else a
   | .internalInCall s ic => if connected a.h s then internalInCall a s ic else a
   | .api b r req => processApi a b r req
-  | .setLimit b l => { a with h := { a.h with limit := fun k => if k = b then l else a.h.limit k } }
+  | .setLimit b l =>
+    -- configuration: lowering a limit below the number of registered sessions (a reload at run time) is outside the model
+    if l = 0 ∨ (a.h.count b).length ≤ l then { a with h := { a.h with limit := fun k => if k = b then l else a.h.limit k } } else a
 
 def step (h : Hub) (op : Op) : Hub × List Out :=
   let a := flushCloses (stepAcc { h := h } op)
